@@ -2,12 +2,14 @@ package wire
 
 import (
 	"bytes"
+	"net/http"
 	"sort"
 	"strconv"
 	"strings"
 	"time"
 
 	"github.com/gofiber/fiber/v3"
+	"github.com/valyala/fasthttp"
 
 	"verifharness/internal/drive"
 	"verifharness/internal/ev"
@@ -366,20 +368,11 @@ func lenientFlashLine(out []byte) (value []byte, attrs string, ok bool) {
 	return nil, "", false
 }
 
-// rawFlashValue cuts the flash cookie value out of the raw response: from the cookie name to the
-// attributes fiber appends to a session cookie (the value itself may contain any byte).
+// rawFlashValue cuts the flash cookie value out of the raw response: the Set-Cookie line for the
+// flash cookie minus whatever attributes follow the value (the value itself may contain any byte).
 func rawFlashValue(out []byte) ([]byte, bool) {
-	start := []byte("Set-Cookie: " + fiber.FlashCookieName + "=")
-	i := bytes.Index(out, start)
-	if i < 0 {
-		return nil, false
-	}
-	v := out[i+len(start):]
-	j := bytes.LastIndex(v, []byte("; path=/; SameSite=Lax\r\n"))
-	if j < 0 {
-		return nil, false
-	}
-	return v[:j], true
+	v, _, next := flashCookieAt(out, 0)
+	return v, next >= 0
 }
 
 func diffEncoded(got, want []fmsg) string {
@@ -413,11 +406,61 @@ func diffEncoded(got, want []fmsg) string {
 	return "content"
 }
 
+// serverNow is the instant of the response by the server's own clock (its Date header, any of the
+// HTTP date formats). Without one, an instant that lies behind every date a server would use to
+// expire a cookie and before any real future expiry: no wall clock is read.
+// flashSrc is everything the client and the handler put into a script: request bytes (raw and
+// percent-decoded) and message texts.
+func flashSrc(spec *flashSpec, reqA []byte) []byte {
+	b := append([]byte(nil), reqA...)
+	b = append(b, '\n')
+	b = append(b, fasthttp.AppendUnquotedArg(nil, reqA)...)
+	for _, m := range spec.msgs {
+		b = append(b, '\n')
+		b = append(b, m.Key...)
+		b = append(b, '\n')
+		b = append(b, m.Value...)
+	}
+	return b
+}
+
+// sameTarget: the Location names the target path, as a path or as an absolute URL of this host.
+func sameTarget(loc, path string) bool {
+	if loc == path {
+		return true
+	}
+	for _, pre := range []string{"http://flash.example.com", "https://flash.example.com", "//flash.example.com"} {
+		if loc == pre+path {
+			return true
+		}
+	}
+	return false
+}
+
 func serverNow(r *strict.Response) time.Time {
-	if t, err := time.Parse("Mon, 02 Jan 2006 15:04:05 GMT", r.Get("Date")); err == nil {
+	if t, err := http.ParseTime(r.Get("Date")); err == nil {
 		return t
 	}
-	return time.Unix(0, 0)
+	return time.Date(2020, 1, 1, 0, 0, 0, 0, time.UTC)
+}
+
+// storeFrom is Jar.StoreFrom for a line whose Expires attribute may be written in any of the HTTP
+// date formats (the strict parser knows only the preferred one).
+func storeFrom(j *strict.Jar, line string, now time.Time, reqPath string) string {
+	bad := j.StoreFrom(line, now, reqPath)
+	if bad != "expires-syntax" {
+		return bad
+	}
+	parts := strings.Split(line, ";")
+	for i, a := range parts {
+		t := strings.TrimSpace(a)
+		if len(t) > 8 && strings.EqualFold(t[:8], "expires=") {
+			if d, err := http.ParseTime(t[8:]); err == nil {
+				parts[i] = " Expires=" + d.UTC().Format("Mon, 02 Jan 2006 15:04:05 GMT")
+			}
+		}
+	}
+	return j.StoreFrom(strings.Join(parts, ";"), now, reqPath)
 }
 
 func safeByte(r *gen.Rand) byte {
@@ -877,7 +920,7 @@ func flashScript(e *ev.Env, c *ev.Case, spec *flashSpec, reqA []byte) {
 	switch {
 	case perr != nil:
 		site := headerAt(out1, perr.Off)
-		if name, after := injectedLine(out1); name != "" {
+		if name, after := injectedLine(out1, flashSrc(spec, reqA)); name != "" {
 			// an attacker-named header line: its own signature
 			detail["header"] = name
 			e.Violation(c, "flash|injected-header-line|after:"+after, "a header line named by message bytes appears in the response of the redirecting handler: "+name, detail)
@@ -896,11 +939,11 @@ func flashScript(e *ev.Env, c *ev.Case, spec *flashSpec, reqA []byte) {
 			track(jar, attrs, spec.a(), time.Unix(0, 0))
 		}
 		client = "lenient"
-	case len(rs1) != 1 || rs1[0].Status != spec.wantStatus() || rs1[0].Get("Location") != spec.b():
+	case len(rs1) != 1 || rs1[0].Status != spec.wantStatus() || !sameTarget(rs1[0].Get("Location"), spec.b()):
 		e.Violation(c, "flash|redirect-response", "handler A did not answer "+itoa(spec.wantStatus())+" to "+spec.b(), detail)
 		return
 	default:
-		if name, after := injectedLine(rs1[0].Raw); name != "" {
+		if name, after := injectedLine(rs1[0].Raw, flashSrc(spec, reqA)); name != "" {
 			detail["header"] = name
 			e.Violation(c, "flash|injected-header-line|after:"+after, "a header line named by message bytes appears in the response of the redirecting handler: "+name, detail)
 		}
@@ -910,11 +953,8 @@ func flashScript(e *ev.Env, c *ev.Case, spec *flashSpec, reqA []byte) {
 		case len(lines) != 1:
 			e.Violation(c, "flash|cookie-count", itoa(len(lines))+" flash cookies set for "+itoa(attached)+" attached items", detail)
 		default:
-			attrs := ""
-			if i := strings.IndexByte(lines[0], ';'); i >= 0 {
-				attrs = lines[0][i+1:]
-			}
-			switch bad := jar.StoreFrom(lines[0], serverNow(rs1[0]), spec.a()); bad {
+			_, attrs := splitCookieAttrs([]byte(lines[0]))
+			switch bad := storeFrom(jar, lines[0], serverNow(rs1[0]), spec.a()); bad {
 			case "":
 				strictOK = true
 				e.Stat("strict_client_stored_cookie", 1)
@@ -1007,7 +1047,7 @@ func flashScript(e *ev.Env, c *ev.Case, spec *flashSpec, reqA []byte) {
 			// line without Path attribute gets the default-path of this request (§5.1.4)
 			now := serverNow(rs2[0])
 			for _, l := range rs2[0].All("Set-Cookie") {
-				jar.StoreFrom(l, now, fa.pathB)
+				storeFrom(jar, l, now, fa.pathB)
 			}
 			stillThere := holdsFlash(jar, fa.pathB)
 			if stillThere {
